@@ -87,13 +87,26 @@ def one(name, notests):
     status = 'exit=' + (out2.strip().splitlines()[-1].split('exit=')[-1] if 'exit=' in out2 else '?')
     detected[c] = {'violations': len(viol), 'exit': status, 'clauses': failed[:8],
                    'replayed_on_real_code': sum(1 for l in viol if 'no-failing-input-found' not in l)}
+  head = subprocess.run('git -C /repo rev-parse --short HEAD', shell=True, capture_output=True, text=True).stdout.strip()
+  old = {}
+  try:
+    old = json.load(open(os.path.join(V, 'seeded', name, 'meta.json')))
+  except Exception:  # pylint: disable=broad-except
+    pass
+  tests = val.get('tests_with_patch')
+  tests_head = head
+  if notests:
+    # the repository's suite with the patch does not depend on /verif: keep the result of the last full validation (and say which /repo HEAD it was for)
+    prev = (old.get('confirmed') or {})
+    if prev.get('repo_test_suite_with_patch') and 'skipped' not in str(prev.get('repo_test_suite_with_patch')):
+      tests, tests_head = prev['repo_test_suite_with_patch'], prev.get('repo_head_for_test_suite', head)
   meta = {
       'name': name, 'breaks_property': prop, 'needs_to_manifest': needs,
       'origin': 'written by an independent sub-agent given only the property text and a scratch worktree (nothing from /verif)',
       'confirmed': {
           'patch_applies_to_repo_HEAD': 'error' not in val,
           'demo_exit_without_patch': val.get('demo_rc_clean'), 'demo_exit_with_patch': val.get('demo_rc_patched'),
-          'repo_test_suite_with_patch': val.get('tests_with_patch'), 'demo_output_with_patch': val.get('demo_patched_tail'),
+          'repo_test_suite_with_patch': tests, 'repo_head_for_test_suite': tests_head, 'repo_head': head, 'demo_output_with_patch': val.get('demo_patched_tail'),
           'ran': [f'tools/validate_seeded.sh {name}'] + [f'tools/apply_seeded.sh {name} {c} --tier quick' for c in checks],
       },
       'checks_run': detected,
